@@ -468,6 +468,19 @@ pub mod socks {
     where
         IO: AsyncRead + AsyncWrite + Send + Unpin,
     {
+        connect_io(io, auth, dest, port).await.0
+    }
+
+    /// Same, handing back the stream of a successful CONNECT as the forwarder would relay it
+    pub async fn connect_io<IO>(
+        io: IO,
+        auth: Option<Auth>,
+        dest: Dest,
+        port: u16,
+    ) -> (Outcome, Option<IO>)
+    where
+        IO: AsyncRead + AsyncWrite + Send + Unpin,
+    {
         let auth = auth.map(|a| match a {
             Auth::UsernamePassword(u, p) => {
                 Authentication::UsernamePassword(Cow::Owned(u), Cow::Owned(p))
@@ -500,12 +513,12 @@ pub mod socks {
             Dest::Domain(x) => Address::DomainName(Cow::Owned(x)),
         };
         match socks5_client::connect(io, auth, Request::Connect(address, port)).await {
-            Ok(ConnectResult::TcpConnection(_)) => Outcome::Tcp,
+            Ok(ConnectResult::TcpConnection(io)) => (Outcome::Tcp, Some(io)),
             Ok(ConnectResult::UdpAssociation(_)) => unreachable!(),
-            Ok(ConnectResult::Failure(c)) => Outcome::Failure(reply_num(&c)),
-            Err(socks5_client::Error::Io(_)) => Outcome::Io,
-            Err(socks5_client::Error::Protocol(_)) => Outcome::Protocol,
-            Err(socks5_client::Error::Authentication(_)) => Outcome::Authentication,
+            Ok(ConnectResult::Failure(c)) => (Outcome::Failure(reply_num(&c)), None),
+            Err(socks5_client::Error::Io(_)) => (Outcome::Io, None),
+            Err(socks5_client::Error::Protocol(_)) => (Outcome::Protocol, None),
+            Err(socks5_client::Error::Authentication(_)) => (Outcome::Authentication, None),
         }
     }
 
